@@ -1,0 +1,115 @@
+//go:build verif
+
+// Contracts for the deductive verifier in /verif (gvc). Comment-only: compiled only under the build
+// tag `verif`, contains no code.
+package packageonly
+
+// ---- C04: the @packageonly checker --------------------------------------------------------------------------------
+// `packageAnnotations` is a ghost parameter: the property is stated over the allow-list relations poTypeDeclared /
+// poFuncDeclared / poMethDeclared (union of all annotation lines, src/indexing/zz_contracts_verif.go).
+//@ macro func poCtxOK(ctx *packageOnlyContext, ann *annotations.PackageAnnotations) bool = ctx != nil && ctx.pass != nil && ctx.pass.Pkg != nil && ann != nil && ctx.packageOnlyIndex != nil && ctx.reportedTypes != nil && *ctx.reportedTypes != nil && ctx.currentPkgPath == ctx.pass.Pkg.Path() && ctx.currentPkgName == ctx.pass.Pkg.Name() && (ctx.ignoreSet != nil ==> isetInv(ctx.ignoreSet)) && (forall p string, t string, x string :: contains(amTypeAtt(ctx.packageOnlyIndex, p, t), x) <==> poTypeDeclared(ctx.pass, ann, p, t, x)) && (forall p string, t string, x string :: contains(amFuncAtt(ctx.packageOnlyIndex, p, t), x) <==> poFuncDeclared(ctx.pass, ann, p, t, x)) && (forall p string, t string, m string, x string :: contains(amMethAtt(ctx.packageOnlyIndex, p, t, m), x) <==> poMethDeclared(ctx.pass, ann, p, t, m, x))
+
+// the using package (path cp, name cn) may not use type t / function t / method t.m of package p
+//@ pure func typeBad(pass *analysis.Pass, ann *annotations.PackageAnnotations, p string, t string) bool = p != pass.Pkg.Path() && (exists x string :: poTypeDeclared(pass, ann, p, t, x)) && !poTypeDeclared(pass, ann, p, t, pass.Pkg.Path()) && !poTypeDeclared(pass, ann, p, t, pass.Pkg.Name())
+//@ pure func funcBad(pass *analysis.Pass, ann *annotations.PackageAnnotations, p string, t string) bool = p != pass.Pkg.Path() && (exists x string :: poFuncDeclared(pass, ann, p, t, x)) && !poFuncDeclared(pass, ann, p, t, pass.Pkg.Path()) && !poFuncDeclared(pass, ann, p, t, pass.Pkg.Name())
+//@ pure func methBad(pass *analysis.Pass, ann *annotations.PackageAnnotations, p string, t string, m string) bool = p != pass.Pkg.Path() && (exists x string :: poMethDeclared(pass, ann, p, t, m, x)) && !poMethDeclared(pass, ann, p, t, m, pass.Pkg.Path()) && !poMethDeclared(pass, ann, p, t, m, pass.Pkg.Name())
+
+//@ func findFunctionViolation
+//@   props C04 C10
+//@   ghostparam packageAnnotations *annotations.PackageAnnotations
+//@   requires poCtxOK(ctx, packageAnnotations)
+//@   fresh
+//@   ensures (result != nil) == (funcBad(ctx.pass, packageAnnotations, pkgPath, funcName) && !supp(ctx.ignoreSet, "PKGO02", pos))
+//@   ensures result != nil ==> result.Code == "PKGO02" && result.Pos == pos
+//@   assigns nothing
+
+//@ func findMethodViolation
+//@   props C04 C10
+//@   ghostparam packageAnnotations *annotations.PackageAnnotations
+//@   requires poCtxOK(ctx, packageAnnotations)
+//@   fresh
+//@   ensures (result != nil) == (methBad(ctx.pass, packageAnnotations, pkgPath, typeName, methodName) && !supp(ctx.ignoreSet, "PKGO03", pos))
+//@   ensures result != nil ==> result.Code == "PKGO03" && result.Pos == pos
+//@   assigns nothing
+
+// PKGO01 is reported once per file and type key: the first unsuppressed use marks the key
+//@ func findTypeViolation
+//@   props C04 C10
+//@   ghostparam packageAnnotations *annotations.PackageAnnotations
+//@   requires poCtxOK(ctx, packageAnnotations)
+//@   fresh
+//@   assigns (*ctx.reportedTypes)[all]
+//@   let key = pkgPath + "." + typeName
+//@   let live = typeBad(ctx.pass, packageAnnotations, pkgPath, typeName) && !supp(ctx.ignoreSet, "PKGO01", pos)
+//@   ensures (result != nil) == (live && !old((*ctx.reportedTypes)[key]))
+//@   ensures result != nil ==> result.Code == "PKGO01" && result.Pos == pos && result.ItemPkgPath == pkgPath && result.ItemName == typeName
+//@   ensures forall k string :: (*ctx.reportedTypes)[k] <==> (old((*ctx.reportedTypes)[k]) || (k == key && live))
+//@   ensures poCtxOK(ctx, packageAnnotations)
+
+// what a reference through selector expr resolves to
+//@ macro func selObj(pass *analysis.Pass, e *ast.SelectorExpr) types.Object = pass.TypesInfo.ObjectOf(e.Sel)
+//@ macro func foreign(pass *analysis.Pass, o types.Object) bool = o != nil && o.Pkg() != nil && o.Pkg().Path() != pass.Pkg.Path()
+//@ macro func isMethodObj(o types.Object) bool = typeis(o, *types.Func) && cast(o, *types.Func).Type() != nil && cast(cast(o, *types.Func).Type(), *types.Signature).Recv() != nil
+//@ macro func methRecvName(o types.Object) string = typeis(coreType(cast(cast(o, *types.Func).Type(), *types.Signature).Recv().Type()), *types.Named) ? defName(cast(cast(o, *types.Func).Type(), *types.Signature).Recv().Type()) : ""
+// the reference expr must be reported with this code (modulo suppression and the once-per-file rule for types)
+//@ pure func refBad(pass *analysis.Pass, ann *annotations.PackageAnnotations, e *ast.SelectorExpr, code string) bool = foreign(pass, selObj(pass, e)) && ((typeis(selObj(pass, e), *types.TypeName) && code == "PKGO01" && typeBad(pass, ann, selObj(pass, e).Pkg().Path(), selObj(pass, e).Name())) || (typeis(selObj(pass, e), *types.Func) && isMethodObj(selObj(pass, e)) && code == "PKGO03" && methBad(pass, ann, selObj(pass, e).Pkg().Path(), methRecvName(selObj(pass, e)), selObj(pass, e).Name())) || (typeis(selObj(pass, e), *types.Func) && !isMethodObj(selObj(pass, e)) && code == "PKGO02" && funcBad(pass, ann, selObj(pass, e).Pkg().Path(), selObj(pass, e).Name())))
+//@ macro func refKey(pass *analysis.Pass, e *ast.SelectorExpr) string = selObj(pass, e).Pkg().Path() + "." + selObj(pass, e).Name()
+
+//@ func findSelectorExprViolation
+//@   props C04 C13 C10
+//@   ghostparam packageAnnotations *annotations.PackageAnnotations
+//@   requires poCtxOK(ctx, packageAnnotations)
+//@   fresh
+//@   assigns (*ctx.reportedTypes)[all]
+//@   let liveT = refBad(ctx.pass, packageAnnotations, expr, "PKGO01") && !supp(ctx.ignoreSet, "PKGO01", expr.Pos())
+//@   ensures result != nil ==> result.Pos == expr.Pos() && refBad(ctx.pass, packageAnnotations, expr, result.Code) && !supp(ctx.ignoreSet, result.Code, expr.Pos())
+//@   ensures result != nil && result.Code == "PKGO01" ==> !old((*ctx.reportedTypes)[refKey(ctx.pass, expr)]) && result.ItemPkgPath + "." + result.ItemName == refKey(ctx.pass, expr)
+//@   ensures result == nil ==> (forall code string :: refBad(ctx.pass, packageAnnotations, expr, code) && !supp(ctx.ignoreSet, code, expr.Pos()) ==> code == "PKGO01" && old((*ctx.reportedTypes)[refKey(ctx.pass, expr)]))
+//@   ensures forall k string :: (*ctx.reportedTypes)[k] <==> (old((*ctx.reportedTypes)[k]) || (liveT && k == refKey(ctx.pass, expr)))
+//@   ensures poCtxOK(ctx, packageAnnotations)
+
+// identifiers only ever denote objects of the using package itself, which are always allowed
+//@ func findIdentViolation
+//@   props C04 C10
+//@   ghostparam packageAnnotations *annotations.PackageAnnotations
+//@   requires poCtxOK(ctx, packageAnnotations)
+//@   fresh
+//@   assigns (*ctx.reportedTypes)[all]
+//@   ensures result == nil
+//@   ensures forall k string :: (*ctx.reportedTypes)[k] <==> old((*ctx.reportedTypes)[k])
+//@   ensures poCtxOK(ctx, packageAnnotations)
+
+// ---- the walk ----------------------------------------------------------------------------------------------------
+//@ macro func pvkey(v PackageOnlyViolation) string = v.ItemPkgPath + "." + v.ItemName
+// node n is a reference that must be reported with `code` at pos and is not suppressed
+//@ pure func liveRef(pass *analysis.Pass, ann *annotations.PackageAnnotations, ign *util.IgnoreSet, n ast.Node, code string, pos token.Pos) bool = n != nil && typeis(n, *ast.SelectorExpr) && refBad(pass, ann, cast(n, *ast.SelectorExpr), code) && pos == n.Pos() && !supp(ign, code, pos)
+//@ macro func nodeKey(pass *analysis.Pass, n ast.Node) string = refKey(pass, cast(n, *ast.SelectorExpr))
+
+// a reported violation is justified by an event of the walk of an analysed file: a live function/method reference, or the
+// FIRST live reference to its type in that file
+//@ pure func justifiedP(cfg *config.Config, pass *analysis.Pass, ann *annotations.PackageAnnotations, ign *util.IgnoreSet, v PackageOnlyViolation) bool = exists f *ast.File, k int :: contains(pass.Files, f) && !skipFile(cfg, pass, f) && 0 <= k && k < len(inspEvents(f)) && liveRef(pass, ann, ign, inspEvents(f)[k], v.Code, v.Pos) && (v.Code == "PKGO01" ==> pvkey(v) == nodeKey(pass, inspEvents(f)[k]) && (forall k2 int, pos2 token.Pos :: 0 <= k2 && k2 < k && liveRef(pass, ann, ign, inspEvents(f)[k2], "PKGO01", pos2) ==> nodeKey(pass, inspEvents(f)[k2]) != pvkey(v)))
+// everything demanded in the first m events of the walk of file f has been reported (types: some PKGO01 with that key, from
+// index n0 of the result on, i.e. reported for this file)
+//@ pure func doneUpToP(pass *analysis.Pass, ann *annotations.PackageAnnotations, ign *util.IgnoreSet, vs []PackageOnlyViolation, n0 int, f *ast.File, m int) bool = (forall k int, code string, pos token.Pos :: 0 <= k && k < m && code != "PKGO01" && liveRef(pass, ann, ign, inspEvents(f)[k], code, pos) ==> (exists j int :: n0 <= j && j < len(vs) && vs[j].Code == code && vs[j].Pos == pos)) && (forall k int, pos token.Pos :: 0 <= k && k < m && liveRef(pass, ann, ign, inspEvents(f)[k], "PKGO01", pos) ==> (exists j int :: n0 <= j && j < len(vs) && vs[j].Code == "PKGO01" && pvkey(vs[j]) == nodeKey(pass, inspEvents(f)[k])))
+// ... at every node of file f
+//@ pure func doneFileP(pass *analysis.Pass, ann *annotations.PackageAnnotations, ign *util.IgnoreSet, vs []PackageOnlyViolation, f *ast.File) bool = (forall n ast.Node, code string, pos token.Pos :: inspIn(n, f) && code != "PKGO01" && liveRef(pass, ann, ign, n, code, pos) ==> (exists j int :: 0 <= j && j < len(vs) && vs[j].Code == code && vs[j].Pos == pos)) && (forall n ast.Node, pos token.Pos :: inspIn(n, f) && liveRef(pass, ann, ign, n, "PKGO01", pos) ==> (exists j int :: 0 <= j && j < len(vs) && vs[j].Code == "PKGO01" && pvkey(vs[j]) == nodeKey(pass, n)))
+
+// C04: in every analysed file every unsuppressed reference to a @packageonly function or method of another package that
+// does not allow the using package (by path or by name, over the union of all annotation lines) is reported, every such
+// type is reported (PKGO01) at its first unsuppressed reference in the file, and nothing else is reported.
+//@ func CheckPackageOnly
+//@   props C04 C07 C08 C12 C14 C10
+//@   requires cfg != nil && pass.Pkg != nil && packageAnnotations != nil && (ignoreSet != nil ==> isetInv(ignoreSet))
+//@   ensures forall j int :: 0 <= j && j < len(result) ==> justifiedP(cfg, pass, packageAnnotations, ignoreSet, result[j])
+//@   ensures forall f *ast.File :: contains(pass.Files, f) && !skipFile(cfg, pass, f) ==> doneFileP(pass, packageAnnotations, ignoreSet, result, f)
+//@   loop 1 frame entry
+//@   at call ast.Inspect#1 frame entry
+//@   loop 1 invariant forall j int :: 0 <= j && j < len(violations) ==> justifiedP(cfg, pass, packageAnnotations, ignoreSet, violations[j])
+//@   loop 1 invariant forall k int :: 0 <= k && k < $i ==> doneFileP(pass, packageAnnotations, ignoreSet, violations, $seq[k])
+//@   loop 1 invariant poCtxOK(&context, packageAnnotations) || $i == 0
+//@   at call ast.Inspect#1 invariant forall j int :: 0 <= j && j < len(violations) ==> justifiedP(cfg, pass, packageAnnotations, ignoreSet, violations[j])
+//@   at call ast.Inspect#1 invariant forall k int :: 0 <= k && k < $i1 ==> doneFileP(pass, packageAnnotations, ignoreSet, violations, $seq1[k])
+//@   at call ast.Inspect#1 invariant poCtxOK(&context, packageAnnotations) && context.reportedTypes == &reportedTypes && atentry(len(violations)) <= len(violations)
+//@   at call ast.Inspect#1 invariant forall k int, pos token.Pos :: 0 <= k && k < $i && liveRef(pass, packageAnnotations, ignoreSet, $seq[k], "PKGO01", pos) ==> reportedTypes[nodeKey(pass, $seq[k])]
+//@   at call ast.Inspect#1 invariant forall key string :: reportedTypes[key] ==> (exists j int :: atentry(len(violations)) <= j && j < len(violations) && violations[j].Code == "PKGO01" && pvkey(violations[j]) == key)
+//@   at call ast.Inspect#1 invariant doneUpToP(pass, packageAnnotations, ignoreSet, violations, atentry(len(violations)), file, $i)
